@@ -4,8 +4,23 @@ package caches
 
 import (
 	"fmt"
+	"os"
 	"sort"
 )
+
+// In a C29 process no cache ever gets a background sweeper: packages that
+// configure a cache from their init function (server/admin) would otherwise
+// launch one as a plain goroutine before main, and a minute later it would
+// enter the woven locks from outside the controlled scheduler. This package
+// is initialized before any package that imports it. Other checks that mount
+// this file are not affected (the guard is the harness's own VERIF_ID).
+func init() {
+	if os.Getenv("VERIF_ID") == "C29" {
+		for id := range cacheClass {
+			expirationThreadRunning[id] = true
+		}
+	}
+}
 
 // VerifC29State is one node's instance of this package's state: a C29 harness
 // multiplexes the nodes of a simulated cluster in one process by loading the
